@@ -7,64 +7,7 @@ use vstd::arithmetic::mul::*;
 
 verus! {
 
-pub struct Cfg { pub wb: nat, pub sb: nat }
-pub open spec fn cfg_ok(c: Cfg, prec: nat) -> bool { c.wb >= 1 && prec >= 1 && prec <= c.wb && c.sb >= c.wb + prec && c.sb >= 2 * c.wb }
-pub open spec fn entry_ok(cum: nat, p: nat, prec: nat) -> bool { p >= 1 && cum + p <= pow2(prec) }
-pub open spec fn W(c: Cfg) -> nat { pow2(c.wb) }
-pub open spec fn M(c: Cfg) -> nat { pow2(c.sb) }
-pub open spec fn TH(c: Cfg) -> nat { pow2((c.sb - c.wb) as nat) }
-
-pub struct Enc { pub l: nat, pub r: nat, pub n: nat }
-pub open spec fn enc_step(c: Cfg, s: Enc, cum: nat, p: nat, prec: nat) -> Enc {
-    let scale = s.r / pow2(prec);
-    let l1 = s.l + scale * cum; let r1 = scale * p;
-    if r1 < TH(c) { Enc { l: l1 * W(c), r: r1 * W(c), n: s.n + 1 } } else { Enc { l: l1, r: r1, n: s.n } }
-}
-
-// concrete bookkeeping state (math copy of RangeEncoder's fields)
-pub enum Sit { Normal, Inverted(nat, nat) }   // (num_inverted, first word)
-pub struct CEnc { pub bulk: Seq<nat>, pub lower: nat, pub range: nat, pub sit: Sit }
-
-pub open spec fn val(c: Cfg, ws: Seq<nat>) -> nat decreases ws.len() {
-    if ws.len() == 0 { 0 } else { val(c, ws.drop_last()) * W(c) + ws.last() }
-}
-pub open spec fn rep(w: nat, k: nat) -> Seq<nat> { Seq::new(k, |i: int| w) }
-// value of  base ++ [first] ++ [ff]*(n-1)  given val(base) = b
-pub open spec fn pend_val(c: Cfg, b: nat, n: nat, first: nat) -> nat { ((b * W(c) + first + 1) * pow2(c.wb * ((n - 1) as nat)) - 1) as nat }
-
-pub open spec fn abs(c: Cfg, s: CEnc) -> Enc {
-    match s.sit {
-        Sit::Normal => Enc { l: val(c, s.bulk) * M(c) + s.lower, r: s.range, n: s.bulk.len() },
-        Sit::Inverted(n, first) => Enc { l: pend_val(c, val(c, s.bulk), n, first) * M(c) + s.lower, r: s.range, n: s.bulk.len() + n },
-    }
-}
-pub open spec fn cinv(c: Cfg, s: CEnc) -> bool {
-    &&& TH(c) <= s.range < M(c) && s.lower < M(c)
-    &&& match s.sit { Sit::Normal => s.lower + s.range < M(c), Sit::Inverted(n, first) => n >= 1 && first + 1 < W(c) && s.lower + s.range >= M(c) }
-}
-
-pub open spec fn cstep(c: Cfg, s: CEnc, cum: nat, p: nat, prec: nat) -> CEnc {
-    let scale = s.range / pow2(prec);
-    let r1 = scale * p;
-    let nl = (s.lower + scale * cum) % M(c);
-    // resolution of held-back words
-    let (bulk1, sit1) = match s.sit {
-        Sit::Inverted(n, first) if nl + r1 < M(c) =>
-            if nl < s.lower { (s.bulk.push(first + 1) + rep(0, (n - 1) as nat), Sit::Normal) }
-            else { (s.bulk.push(first) + rep((W(c) - 1) as nat, (n - 1) as nat), Sit::Normal) },
-        _ => (s.bulk, s.sit),
-    };
-    if r1 < TH(c) {
-        let range2 = r1 * W(c);
-        let lower_word = nl / TH(c);
-        let lower2 = (nl * W(c)) % M(c);
-        match sit1 {
-            Sit::Inverted(n, f) => CEnc { bulk: bulk1, lower: lower2, range: range2, sit: Sit::Inverted(n + 1, f) },
-            Sit::Normal => if lower2 + range2 < M(c) { CEnc { bulk: bulk1.push(lower_word), lower: lower2, range: range2, sit: Sit::Normal } }
-                           else { CEnc { bulk: bulk1, lower: lower2, range: range2, sit: Sit::Inverted(1, lower_word) } },
-        }
-    } else { CEnc { bulk: bulk1, lower: nl, range: r1, sit: sit1 } }
-}
+//@INCLUDE frag_range_math.rs
 
 proof fn lemma_val_push(c: Cfg, ws: Seq<nat>, w: nat)
     ensures val(c, ws.push(w)) == val(c, ws) * W(c) + w
